@@ -33,7 +33,7 @@ func init() {
 				{Name: "hash", Variant: "plain", Cases: n, Setup: c09setup, Run: c09hash, Required: []string{"murmur_highbyte_tail", "random_negative_md5", "token_pairs"}},
 				{Name: "hash-appengine", Variant: "appengine", Cases: n / 4, Setup: c09setup, Run: c09hash},
 				{Name: "hash-checkptr", Variant: "race", Cases: n / 8, Setup: c09setup, Run: c09hash},
-				{Name: "routing", Variant: "race", Cases: n / 40, Setup: c09setup, Run: c09routing, Required: []string{"routing_keys", "composite_keys", "keys_not_at_leading_markers", "rebinds", "held_keys_rechecked", "statements_without_bound_partition_key", "named_values_out_of_marker_order"}},
+				{Name: "routing", Variant: "race", Cases: n / 40, Setup: c09setup, Run: c09routing, Required: []string{"routing_keys", "composite_keys", "keys_not_at_leading_markers", "rebinds", "held_keys_rechecked", "statements_without_bound_partition_key", "named_values_out_of_marker_order", "composite_keys_with_an_empty_component", "routing_keys_from_schema_tables"}},
 			}
 			return ph
 		},
